@@ -15,7 +15,7 @@ EXPLANATION = (
     "DisconnectGuard is constructed at exactly one site, outside any loop, in handle_connection_with_config, from "
     "config.on_disconnect; the guard variable is never moved, forgotten or wrapped, so the compiler drops it exactly once on "
     "return, unwind and coroutine drop (drain-deadline abort, embedder cancellation); it is live across the await of the "
-    "reader select!. (post-handshake-only) every caller of handle_connection_with_config passes either an embedder-upgraded "
+    "reader select! and across no other await (its scope ends with the reader, so a slow writer join cannot postpone the hooks). (post-handshake-only) every caller of handle_connection_with_config passes either an embedder-upgraded "
     "stream parameter or the Ok payload of accept_repe_websocket. (registry-pairing) with_peer_registry registers insert as a "
     "connect hook and remove as a disconnect hook on clones of one registry; the guard's construction dominates every "
     "connect-hook call, so a panicking hook still tears down. (hooks-before-reader) all connect-hook call sites dominate the "
@@ -76,6 +76,12 @@ def run(facts, R):
             n_live += 1
             R.check(live, "guard-owns-disconnect", hc.path, "guard live across the reader await", "the reader is awaited with no live DisconnectGuard (a dropped connection task would skip the hooks)",
                     hc.term(y).get("span"), "live")
+        elif live:
+            # the guard must go out of scope as soon as the reader is done: any other await inside its scope (joining the
+            # writer, draining a queue) postpones the disconnect hooks and the registry removal until that await finishes
+            R.bad("guard-owns-disconnect", hc.path, "guard scope ends with the reader",
+                  "the DisconnectGuard is still live across an await of %s: the disconnect hooks and the token cancellation wait for it (a writer parked on a "
+                  "stalled peer would postpone them indefinitely)" % (polled[-1][:100] if polled else "another future"), hc.term(y).get("span"))
     R.floor("guard-owns-disconnect", n_live, 1, "await points of the reader select!")
     # hooks invoked only in Drop
     dp = facts.body("<%s as std::ops::Drop>::drop" % GUARD)
